@@ -3,7 +3,7 @@ PROPS = {}
 PROPS["C18"] = {
     "level": "exploration",
     "exhaustive": {"quick": False, "thorough": True},
-    "rule": "enumeration: per ecosystem (npm, Maven, PyPI) 7 ordered versions; every well-formed event list (strictly increasing versions, alternating introduced / fixed|last_affected, starting with introduced, '0' allowed as first introduced) of length <= 4 (quick) / <= 5 (thorough) x listing orders (quick: all orders for plain ECOSYSTEM/SEMVER records, sorted+reversed for the other record shapes; thorough: all orders for every shape) x 15 record shapes (ECOSYSTEM, SEMVER for npm, GIT noise, two ranges, two affected entries, other package / ecosystem, explicit versions) x every queried version; thorough adds all pairs (list <= 3 events) x (list <= 2 events, both orders); one evaluation per (record, queried version); non-trivial = a range of the queried package has >= 2 events and the queried version lies strictly inside the span of its event versions; distinct by the case JSON",
+    "rule": "enumeration: per ecosystem (npm, Maven, PyPI) 7 ordered versions; records for other packages incl. near names (case variants, longer/shorter names, surrounding space); every well-formed event list (strictly increasing versions, alternating introduced / fixed|last_affected, starting with introduced, '0' allowed as first introduced) of length <= 4 (quick) / <= 5 (thorough) x listing orders (quick: all orders for plain ECOSYSTEM/SEMVER records, sorted+reversed for the other record shapes; thorough: all orders for every shape) x 15 record shapes (ECOSYSTEM, SEMVER for npm, GIT noise, two ranges, two affected entries, other package / ecosystem, explicit versions) x every queried version; thorough adds all pairs (list <= 3 events) x (list <= 2 events, both orders); one evaluation per (record, queried version); non-trivial = a range of the queried package has >= 2 events and the queried version lies strictly inside the span of its event versions; distinct by the case JSON",
     "assumptions": ["the order of the 7 canonical versions per ecosystem is the ecosystem's documented order (SemVer 2.0 precedence, Maven ComparableVersion, PEP 440); the oracle works on their indices only",
                     "SEMVER ranges are generated for npm only; 'limit' events are not generated (the property does not mention them)",
                     "each event object carries exactly one of introduced / fixed / last_affected, as the OSV schema requires"],
